@@ -13,6 +13,13 @@ theorem prefixDiffers_eq : ∀ (n : Nat) (a b : Bytes), prefixDiffers n a b = (a
   | _ + 1, [], _ :: _ => by simp [prefixDiffers, bne]
   | _ + 1, _ :: _, [] => by simp [prefixDiffers, bne]
 
+theorem minLen_eq : ∀ (c : Nat) (l : Bytes), minLen c l = Nat.min c l.length
+  | 0, _ => by simp [minLen]
+  | _ + 1, [] => by simp [minLen]
+  | c + 1, _ :: l => by
+    simp only [minLen, minLen_eq c l, List.length_cons]
+    exact (Nat.succ_min_succ c l.length).symm
+
 theorem compareLoop_zero_cap (fuel : Nat) (file data : Bytes) :
     compareLoop 0 fuel file data = ([], none) := by
   induction fuel with
@@ -33,7 +40,7 @@ theorem compareLoop_sound (cap : Nat) : ∀ (fuel : Nat) (file data : Bytes) (rd
         simp [compareLoop, hc] at h
         exact h.2.symm
       | cons a l =>
-        simp only [compareLoop, hc, if_false, List.isEmpty_cons, Bool.false_eq_true, prefixDiffers_eq] at h
+        simp only [compareLoop, hc, if_false, List.isEmpty_cons, Bool.false_eq_true, prefixDiffers_eq, minLen_eq] at h
         split at h
         · simp at h
         · rename_i hcond
@@ -56,7 +63,7 @@ theorem compareLoop_complete (cap : Nat) (hc : 0 < cap) : ∀ (fuel : Nat) (file
     | nil =>
       cases data <;> simp [compareLoop, hc0]
     | cons a l =>
-      simp only [compareLoop, hc0, if_false, List.isEmpty_cons, Bool.false_eq_true, prefixDiffers_eq]
+      simp only [compareLoop, hc0, if_false, List.isEmpty_cons, Bool.false_eq_true, prefixDiffers_eq, minLen_eq]
       split
       · rename_i hcond
         simp only [gt_iff_lt, Bool.or_eq_true, decide_eq_true_eq, bne_iff_ne, ne_eq] at hcond
